@@ -4,6 +4,7 @@ INVARIANT Restored
 INVARIANT Innermost
 INVARIANT SavedChain
 INVARIANT ConventionsAgree
+INVARIANT OriginalIffRestored
 INVARIANT NonCallableAsIs
 INVARIANT Export
 PROPERTY RestoreStep
